@@ -7,6 +7,8 @@ import Mrm.Model.Basic
 import Mrm.Model.Classify
 import Mrm.Model.Timing
 import Mrm.Model.Merge
+import Mrm.Spec.Merge
+import Mrm.Spec.Frame
 
 open Lean
 
@@ -110,9 +112,35 @@ def handle (j : Json) : Except String Json := do
     let d ← (j.getObjVal? "doc").bind xmlOfJson
     pure (classifyJ d)
   | "add" =>
+    -- model outcome of `ro + msg`; when the implementation's outcome is supplied ("impl"), every
+    -- merge property is evaluated on it with the same definitions the theorems are about
     let ro ← (j.getObjVal? "ro").bind xmlOfJson
     let msg ← (j.getObjVal? "msg").bind xmlOfJson
-    pure (resJ (add ro msg))
+    let model := add ro msg
+    let base := [("model", resJ model)]
+    match classify msg with
+    | .error e => pure (Json.mkObj (base ++ [("classify_err", .str (Err.name e))]))
+    | .ok k =>
+      let base := base ++ [("kind", .str (Kind.name k))]
+      match j.getObjVal? "impl" with
+      | .error _ => pure (Json.mkObj base)
+      | .ok ij =>
+        let o ← resOfJson ij
+        let i : MergeInput := ⟨ro, msg, k⟩
+        let pj (dom holds : Bool) : Json := Json.mkObj [("dom", .bool dom), ("holds", .bool holds)]
+        let orderDom := DomOrder i
+        let props := Json.mkObj [
+          ("C01", pj (orderDom && k.isStoryLevel) (holdsOrder i o)),
+          ("C01perm", pj (k.isStoryLevel) (holdsPerm i o)),
+          ("C02", pj (orderDom && k.isItemLevel) (holdsOrder i o)),
+          ("C02perm", pj (k.isItemLevel) (holdsPerm i o)),
+          ("C03", pj (DomC03 i) (holdsC03 i o)),
+          ("C04", pj (DomC04 i) (holdsC04 i o)),
+          ("C05", pj true (holdsC05 i o)),
+          ("C06", pj (DomC06 i) (holdsC06 i o)),
+          ("C07", pj true (holdsC07 i o)),
+          ("C12", pj (DomC12 i) (holdsC12 i o))]
+        pure (Json.mkObj (base ++ [("props", props)]))
   | _ => throw s!"unknown op {op}"
 
 end Mrm
